@@ -1,10 +1,10 @@
 package main
 
 import (
-	"go/types"
 	"fmt"
 	"go/constant"
 	"go/token"
+	"go/types"
 	"strings"
 
 	"golang.org/x/tools/go/ssa"
@@ -12,10 +12,10 @@ import (
 
 func init() {
 	register(&propCheck{
-		id:    "C17",
-		level: "other",
+		id:          "C17",
+		level:       "other",
 		explanation: "Static structural facts the timing argument of stale-lock detection stands on: (S1) heartbeat lifecycle — every successful TryLock has started `go heartBeat` on a child context whose cancel function is registered in the lock's own cancel store, with the lock's period field and a heartbeat file inside the lock directory; the heartbeat loop writes and touches the file on every iteration before sleeping and ends only on a context error; Unlock cancels the store before removing; (S2) writer interval and reader threshold are linear forms a·period+b in the same field and unit with interval ≤ period and threshold − interval ≥ one full period, compared with 'age > threshold'; (S3) IsStale answers false outright only where a filesystem call failed, the empty-directory branch decides by the directory's own age, several heartbeat files are stale only if all are, and a missing time info is not stale; (S4) ReleaseIfStale releases only on the stale side. Decided by symbolic evaluation of the duration expressions and dominance rules on SSA; nothing is executed. Not decided: anything with a clock in it (scheduler latency, I/O load, the bounded delay).",
-		run:   runC17,
+		run:         runC17,
 		assumptions: []string{
 			"the scheduler wakes the heartbeat goroutine within one period of its deadline (the slack the code provides); this is a run-time fact and is not decided",
 		},
